@@ -6,8 +6,8 @@ from props import e1
 PROP = "C08"
 DIR = None
 DIRS = ["A", "AB", "A/B", "A/B/C"]
-DIRS_X = DIRS + ["A/B/C/D"]
-FMT = {"": ["xxh64"], "A": ["md5"], "AB": ["xxh64"], "A/B": ["sha1"], "A/B/C": ["c4"], "A/B/C/D": ["md5", "xxh3"]}
+DIRS_X = DIRS + ["A/B/C/D", "E"]
+FMT = {"": ["xxh64"], "A": ["md5"], "AB": ["xxh64"], "A/B": ["sha1"], "A/B/C": ["c4"], "A/B/C/D": ["md5", "xxh3"], "E": ["md5"]}
 
 
 def base_tree(dirs):
@@ -15,7 +15,8 @@ def base_tree(dirs):
     for d in dirs:
         ops.add_parents(t, d + "/x")
         t[d] = DIR
-        t[d + "/" + d.replace("/", "_").lower() + ".txt"] = ("file in " + d).encode()
+        if d != "E":    # E stays empty: a nested history without any file
+            t[d + "/" + d.replace("/", "_").lower() + ".txt"] = ("file in " + d).encode()
     return t
 
 
